@@ -15,12 +15,12 @@ search_in_*() and parse_c_type() over tables written in Python sorted() order
 universe with every member of the universe as key (oracle: linear scan).
 Thorough tier: the same file as a libFuzzer target.
 """
-import os, sys, re, json, string, hashlib, subprocess, random, math, threading
+import os, sys, re, json, string, hashlib, subprocess, random, math
 import concurrent.futures as cf
 from vlib import core, build, modbuild
 
 RULE = ("module case = one generated module (out-of-line ABI, ABI including another ABI module, or "
-        "compiled API) declaring 1-400 (API: 1-40) names per kind (globals: #define / enumerator "
+        "compiled API) declaring 1-400 (API: 1-60) names per kind (globals: #define / enumerator "
         "/ function / variable / non-integer constant / extern \"Python\"; struct+union tags; enum "
         "tags; typedefs), names grown by mutation from each other (prefix, extension by '_'/digit/"
         "letter, case flips, last character moved across the digit<upper<'_'<lower borders, "
@@ -142,6 +142,8 @@ def logsize(rng, hi):
 
 def plan_module(rng, name, mode, hi, avoid=()):
     ng, nt, ns, ne = [logsize(rng, hi) for _ in range(4)]
+    if mode == 'api':
+        ng = max(ng, min(hi, 12)) + ne          # enough globals for all six kinds
     ne = min(ne, ng)
     ordn = gen_pool(rng, ng + nt, avoid)
     tagn = gen_pool(rng, ns + ne, avoid, seeds=ordn)
@@ -621,7 +623,7 @@ def run_fuzz(ctx, seconds):
 
 # ---- driver -----------------------------------------------------------------------
 
-def api_avoid(ctx, moddir):
+def api_avoid(ctx):
     """identifier tokens that an API module cannot declare: everything in the preprocessed
     output of a generated module (Python.h, libc headers, cffi's wrapper code) + macros"""
     spec = {'name': '_c25probe', 'kind': 'api', 'dir': os.path.join(ctx.tmp, 'probe'),
@@ -668,11 +670,11 @@ def run(ctx):
     rng = ctx.rng('modules')
     moddir = os.path.join(ctx.tmp, 'mods')
     os.makedirs(moddir)
-    nmod = ctx.scale(60, 600)
-    napi = ctx.scale(6, 24)
+    nmod = ctx.scale(60, 1500)
+    napi = ctx.scale(8, 36)
     with cf.ThreadPoolExecutor(2) as ex:
         fh = ex.submit(lambda: run_harness(ctx, gen_tables(ctx), universe(ctx)))
-        avoid = api_avoid(ctx, moddir)
+        avoid = api_avoid(ctx)
         ctx.note('API avoid set (%d tokens) after %.1fs' % (len(avoid), ctx.elapsed()))
         plans_api, emit_cases, cases = [], [], []
         k = 0
@@ -680,7 +682,7 @@ def run(ctx):
             name = '_c25m%d' % k
             if len(plans_api) < napi:
                 big = ctx.thorough and len(plans_api) % 6 == 5
-                p = plan_module(rng, name, 'api', 400 if big else 40, avoid)
+                p = plan_module(rng, name, 'api', 400 if big else 60, avoid)
                 if big:     # bulk kinds only: wrappers for 400 functions take gcc minutes
                     for g in p['globals']:
                         g[1] = 'macro' if g[1] != 'enumerator' else g[1]
